@@ -1,5 +1,5 @@
 """driver.py - front end (compile /repo's current tree to IR), run harnesses, collect results."""
-import os, subprocess, sys, time, hashlib, json, re
+import z3, os, subprocess, sys, time, hashlib, json, re
 from . import ir, engine as E
 
 VERIF = os.path.dirname(os.path.dirname(os.path.abspath(__file__)))
@@ -179,6 +179,7 @@ def run_harness(ll, entry, params=None, setup=None, on_end=None, env_models=None
         stride = max(1, len(returned) // max(1, nsamples))
         for d, s_ in returned[::stride][:nsamples]:
             try:
+                eng.model_true(s_, z3.BoolVal(True))       # re-validates the witness model against conjuncts appended by environment models (declared ranges)
                 eng.ensure_model(s_)
                 res.samples.append({'outcome': d, 'inputs': [x for x in model_inputs(s_, s_.model) if x['kind'] != 'env'][:64], 'steps': s_.steps,
                                     'reached': [e[1] for e in s_.log if e[0] == 'reach']})
